@@ -63,7 +63,12 @@ def make_case(rng, ref, k, sizes=None):
     lbox = float(rng.choice([500.0, 2000.0, 333.0, 250.5]))  # half the box need not be an integer
     halo, part = hodref.gen_tables(rng, H, P, lbox=lbox, with_env=bool(k % 4))
     sub = SUBSETS[k % 7]
-    tracers = hodref.gen_tracers(rng, sub, fancy=bool(k % 3))
+    tracers = hodref.gen_tracers(rng, sub, fancy=[False, True, 'sparse'][k % 3])
+    if (k // 3) % 2 and len(tracers) > 1:
+        # the caller's dict may list the tracers in any order; results are labelled by tracer name
+        names = list(tracers)
+        names = names[::-1] if len(names) == 2 or (k // 6) % 2 else names[1:] + names[:1]
+        tracers = {t: tracers[t] for t in names}
     enable_ranks = bool(k % 2)
     rsd = bool((k // 2) % 2)
     origin = None if (k // 4) % 3 else (np.array([-990.0, -830.0, -1100.0]) if (k // 12) % 2 == 0 else np.array([0.0, 0.0, 0.0]))  # distinct components; an observer at the coordinate origin is a valid light-cone origin too
@@ -99,7 +104,7 @@ def make_case(rng, ref, k, sizes=None):
         keep0 = part['prandoms'] == 0.0
         nplant += plant(rng, part['prandoms'], se)
         part['prandoms'][keep0 & (se[1] > 1e-12)] = 0.0
-    return dict(halo=halo, part=part, tracers=tracers, params=params, enable_ranks=enable_ranks, rsd=rsd, nplant=nplant, desc=dict(case=k, H=H, P=P, rsd_edge_hosts=edge_hosts, tracers=list(sub), enable_ranks=enable_ranks, rsd=rsd, origin=None if origin is None else origin.tolist(), Lbox=lbox, env=bool(k % 4)))
+    return dict(halo=halo, part=part, tracers=tracers, params=params, enable_ranks=enable_ranks, rsd=rsd, nplant=nplant, desc=dict(case=k, H=H, P=P, rsd_edge_hosts=edge_hosts, tracers=list(tracers), enable_ranks=enable_ranks, rsd=rsd, origin=None if origin is None else origin.tolist(), Lbox=lbox, env=bool(k % 4)))
 
 
 def run_real(GH, case, Nthread, tracers=None, rsd=None):
